@@ -928,12 +928,15 @@ def gen_random(rng, count, depth):
 def run(ctx):
     quick = ctx.tier == "quick"
     small = enum_small(ctx.rng, quick)
+    if quick:
+        # the compiler under test runs from .py sources (~0.25 s per function): keep two thirds of the enumeration
+        small = [s for s in small if ctx.rng.random() < 0.66]
     check_stmts(ctx, small, "c20e")
     if not quick:
         ctx.extra.setdefault("exhaustive_domains", []).append(
             "call argument-kind patterns (positional/keyword/*/**) of length <= 3, plain and method calls: all %d"
             % (2 * sum(1 for n in range(4) for p in itertools.product("pskd", repeat=n) if valid_args(p))))
-    nrand = 90 if quick else 2000
+    nrand = 75 if quick else 2000
     rnd = gen_random(ctx.rng, nrand // 3, 2) + gen_random(ctx.rng, nrand // 3, 3) + gen_random(ctx.rng, nrand - 2 * (nrand // 3), 4)
     check_stmts(ctx, rnd, "c20r")
 
